@@ -68,7 +68,7 @@ var escapeTable = map[string]string{
 	"errs.f":                                    "both panics fire only on a code without format or an arity mismatch; excluded for every call site by rule C16.fmt",
 	"errs.f#2":                                  "see errs.f",
 	"(json.Number).not":                         "argument is the result of cmpAbs/cmpInt/cmpFra, which return only -1, 0, 1 (rule C13.pred decodes those tables)",
-	"(json.Number).ToFloat":                     "strconv.ParseFloat of String() of a Number that passed the number grammar; not reachable from schema processing",
+	"(json.Number).ToFloat":                     "public helper that is not among the listed operations and is not called by schema processing; it panics by contract when the value does not fit a float64 (|x| > MaxFloat64, e.g. 1e400)",
 	"json.NewJsonType":                          "exported helper that panics by contract on an unknown name; callers inside the module run under the loader's recover",
 	"(json.GuessData).LiteralJsonType":          "on the schema path the panic is an error value converted by the recovering callers; on the enum-rule path (no recover) it is unreachable because the enum scanner hands only well-formed JSON scalars to json.Guess - that invariant is not trusted, it is the product check C02.inv.enumlit (= C17.grammar) run as part of this property",
 	"(*kit.JSchemaError).preparation":           "file is set by NewJSchemaError, the only constructor; a zero JSchemaError is never returned by the module",
@@ -92,7 +92,6 @@ var escapeTable = map[string]string{
 	"openapi/internal.RuleToASTNode":                            "items of an `or` rule are strings, references or rule-set objects (loader rejects anything else)",
 	"openapi/internal/jsoac.newBasicAdditionalProperties":       "additionalProperties value is a boolean or a string (loader rejects anything else)",
 	"(openapi/internal/jsoac.AdditionalProperties).MarshalJSON": "default branch of a switch over all declared additionalPropertiesMode constants",
-	"openapi/internal/jsoac.newNode":                            "TokenType of an AST node is one of the seven constants, all handled",
 	"openapi/internal/jsoac.oadTypeFromASTNode":                 "called for primitive/array/object nodes only (newNode dispatch), never for references",
 	"openapi/internal/rsoac.getASTNode":                         "RSchema.GetAST fails only for an invalid regex schema; conversion is defined for accepted schemas",
 	"openapi/internal/jsoac.makeAdditionalAnyJSONObjects":       "see known finding on oadTypeFromSchemaType: same domain question for `or` items inside additionalProperties (enum/mixed/comment are rejected earlier for or-items)",
